@@ -347,15 +347,18 @@ def stepVerify (c : Ctl) (addr : String) (rwChain woChain : Option (List String)
     | _, _, _ => (c, .refused)
   | _, _ => (c, .refused)
 
+/-- the replicas of the fan-out that failed this request -/
+def failedWriters (c : Ctl) (fails : List String) : List String :=
+  (c.writers.filter fun w => fails.contains w.1).map (·.1)
+
 /-- `WriteAt` / `Sync` / `Unmap` after the gate and the range check -/
 def stepFanOut (c : Ctl) (method : String) (fails : List String) : Ctl × CtlOut :=
   if !c.available then (c, .failed) else
-  let c := c.writers.foldl (fun c w => c.call w.2 method) c
-  let errs := (c.writers.filter fun w => fails.contains w.1).map (·.1)
-  if errs.isEmpty then (c, .ok) else
-  let okMaj := majorityOk c.writers.length errs.length
-  let (c1, remains) := c.ioFail errs
-  (c1, if okMaj ∧ !remains then .ok else .failed)
+  let errs := c.failedWriters fails
+  let c1 := c.writers.foldl (fun c w => c.call w.2 method) c
+  if errs.isEmpty then (c1, .ok) else
+  ((c1.ioFail errs).1,
+   if majorityOk c.writers.length errs.length ∧ !(c1.ioFail errs).2 then .ok else .failed)
 
 def stepWrite (c : Ctl) (off len : Nat) (fails : List String) : Ctl × CtlOut :=
   if c.readOnly then (c, .refused) else
